@@ -526,7 +526,7 @@ fn implements_stream(ctx: &mut Ctx) {
 
 // ---------------------------------------------------------------- operations against a parsed schema
 
-const SCHEMAS: [&str; 4] = [
+const SCHEMAS: [&str; 5] = [
     "schema { query: Query } type Query { id: ID! name: String other: Other list: [Other!]! } type Other { a: Int b: Query }",
     "schema { query: Q mutation: M subscription: S } interface Node { id: ID! } type Q implements Node { id: ID! node(id: ID!, first: Int = 3): Node u: U e: E }
      type M { set(input: In!, flag: Boolean): Q } type S { tick: Int q: Q } type A implements Node { id: ID! x: [Int] } union U = A | Q enum E { X Y }
@@ -537,6 +537,9 @@ const SCHEMAS: [&str; 4] = [
     // an input object with a required field added by an extension
     "schema { query: Q } scalar Date union U = A extend union U = Q type A { d: Date us: [U!] n: Int } type Q { u: U d(i: In, r: Req!): Date a: A }
      input In { c: In l: [In!] = [] n: Int m: [[In]!] } input Req { a: Int } extend input Req { b: Date! c: In }",
+    // definitions and extensions WITHOUT a fields / values block (valid SDL: `extend interface N @t`)
+    "schema { query: Q } directive @t on OBJECT | INTERFACE | ENUM | INPUT_OBJECT | UNION | SCALAR  interface N { a: Int } type Q implements N { a: Int e: E n: N }
+     enum E { A B } input I { x: Int } union U = Q scalar S  extend interface N @t extend type Q @t extend enum E @t extend input I @t extend union U @t extend scalar S @t",
 ];
 
 fn schema_only(doc: &ast::Document) -> String {
